@@ -461,9 +461,11 @@ def run(ctx):
         okc = len(cs) == 1
         if okc:
             a = f.args(cs[0])
-            b_calls = [q.short_of(f.bcallee(j) or '') for j in q.expr_calls_deep(f, a[0])]
-            e_calls = [q.short_of(f.bcallee(j) or '') for j in q.expr_calls_deep(f, a[1])]
-            okc = inp in q.deep_refs(f, a[0]) and inp in q.deep_refs(f, a[1]) and any(x in ('c_str', 'data') for x in b_calls) and any(x in ('size', 'length') for x in e_calls)
+            S7 = q.symb_with_locals(f)            # looks through single-definition locals and one-line expression helpers
+            b_, e_ = S7.lin(a[0]), S7.lin(a[1])
+            d_ = e_ - b_
+            okc = b_.c == 0 and len(b_.t) == 1 and list(b_.t.values()) == [1] and list(b_.t)[0].startswith(inp) and list(b_.t)[0].endswith(('.c_str()', '.data()')) and \
+                d_.c == 0 and len(d_.t) == 1 and list(d_.t.values()) == [1] and list(d_.t)[0].startswith(inp) and list(d_.t)[0].endswith(('.size()', '.length()'))
             # start of the buffer: &buf[0] (possibly through a cast / a local)
             def zero_index(node):
                 idx = [j for j in q_walk_deep(f, node) if f.N(j)['k'] == 'CXXOperatorCallExpr' and f.N(j).get('op') == '[]']
